@@ -72,9 +72,10 @@ pub fn name_validity(n: &str) -> Validity {
     }
 }
 
-const POOL: [&str; 4] = ["A0", "A1", "A2", "A3"];
+// (an appender may be called anything, including the empty string)
+const POOL: [&str; 6] = ["A0", "A1", "A2", "A3", "", " "];
 const BIG_POOL: [&str; 16] = ["A0", "A1", "A2", "A3", "B0", "B1", "B2", "B3", "C0", "C1", "C2", "C3", "D0", "D1", "D2", "D3"];
-const REFS: [&str; 6] = ["A0", "A1", "A2", "A3", "nope", "ghost"];
+const REFS: [&str; 8] = ["A0", "A1", "A2", "A3", "nope", "ghost", "", " "];
 
 fn name_strategy() -> impl Strategy<Value = String> {
     prop_oneof![
